@@ -33,6 +33,7 @@ inline js::Value verdict_to_json(const Verdict &vd)
 	js::Value l = js::Value::arr(); for (auto &s : vd.labels) l.push(js::Value::str(s)); o.set("labels", l);
 	js::Value st = js::Value::obj(); for (auto &s : vd.stat) st.set(s.first, js::Value::num((double)s.second)); o.set("stat", st);
 	o.set("completed", js::Value::boolean(vd.completed));
+	js::Value tr = js::Value::arr(); for (auto &t : vd.transcripts) tr.push(js::Value::str(scen::tohex(t))); o.set("tr", tr);
 	return o;
 }
 inline bool verdict_from_json(const js::Value &o, Verdict &vd)
@@ -42,6 +43,7 @@ inline bool verdict_from_json(const js::Value &o, Verdict &vd)
 	if (auto *l = o.get("labels")) for (auto &s : l->a) vd.labels.insert(s.s);
 	if (auto *s = o.get("stat")) for (auto &m : s->o) vd.stat[m.first] = (long)m.second.d;
 	if (auto *c = o.get("completed")) vd.completed = c->b;
+	if (auto *t = o.get("tr")) for (auto &x : t->a) vd.transcripts.push_back(scen::fromhex(x.s));
 	return true;
 }
 
@@ -206,6 +208,8 @@ struct Campaign {
 	std::vector<js::Value> samples;
 	size_t max_samples = 4;
 	Scenario last_failing; Failure last_failure; bool have_failing = false;
+	// property specific relation over further executions (differential / metamorphic oracles)
+	std::function<std::vector<Failure>(Campaign &, const Scenario &, const CaseResult &)> extra;
 
 	bool rule_relevant(const std::string &r) const
 	{
@@ -245,6 +249,13 @@ struct Campaign {
 			if (!r.crashed && nontrivial(r.vd, sc)) {
 				uint64_t h = scen::hash(sc);
 				if (nontrivial_hashes.insert(h).second && samples.size() < max_samples && (nontrivial_hashes.size() % 97 == 1 || samples.empty())) samples.push_back(scen::to_json(sc));
+			}
+		}
+		if (extra && out.empty() && !r.crashed) {
+			for (auto &f : extra(*this, sc, r)) {
+				std::string sig = f.signature + " | " + f.detail;
+				if (is_known(sig, &which)) { if (record) known_hits[which]++; continue; }
+				out.push_back(f);
 			}
 		}
 		if (!out.empty()) { last_failing = sc; last_failure = out[0]; have_failing = true; }
